@@ -478,7 +478,15 @@ def load_subscript(it, obj, k):
 
 
 def df_select(d, mask):
-    """boolean row selection: the table keeps its classes; `__keep__` remembers which survive"""
+    """boolean row selection: the table keeps its classes; `__keep__` remembers which survive.
+    A table marked exact (it stands for exactly its rows) is filtered for real."""
+    if getattr(d, "exact", False):
+        if not all(isinstance(m, bool) for m in mask.v) or len(mask.v) != d.n:
+            raise Undecided("row selection of an exact table with an undecided mask")
+        keep = [i for i, m in enumerate(mask.v) if m]
+        out = DF({c: Vec([v.v[i] for i in keep], aligned=True) for c, v in d.cols.items()}, len(keep), "subset")
+        out.exact = True
+        return out
     out = DF(d.cols, d.n, "subset")
     prev = d.cols.get("__keep__", Vec([True] * d.n))
     out.cols["__keep__"] = Vec((p is True) and (m is True) for p, m in zip(prev.v, mask.v))
@@ -788,8 +796,14 @@ def vec_method(it, obj, name, args, kw):
         return fatom("v" + name, vals)
     if name == "median":
         vals = [T(x) for x in obj.v if not is_nan(x)]
-        if len(vals) == 1:
+        if not vals:
+            return None
+        if len(vals) == 1 or all(v.same(vals[0]) for v in vals):
             return vals[0]
+        if all(v.is_const() for v in vals):
+            cs = sorted(v.cval() for v in vals)
+            m = len(cs)
+            return Term.const(cs[m // 2] if m % 2 else (cs[m // 2 - 1] + cs[m // 2]) / 2)
         return fatom("median", vals)
     if name == "drop_duplicates":
         out = []
@@ -835,6 +849,17 @@ def vec_method(it, obj, name, args, kw):
     if name == "isin":
         vals = list(it.iterate(args[0]))
         return lift1(lambda x: any(_eq(x, v) for v in vals), obj)
+    if name == "match" and args and isinstance(args[0], str):
+        import re as _re
+        rx = _re.compile(args[0])
+
+        def mt(x):
+            if isinstance(x, str):
+                return rx.match(x) is not None
+            if is_nan(x):
+                return kw.get("na", None)
+            raise Undecided(".str.match on abstract value")
+        return lift1(mt, obj)
     if name in ("startswith", "endswith", "lower", "upper", "strip", "rstrip", "len", "contains"):
         def sm(x):
             if isinstance(x, str):
@@ -960,6 +985,16 @@ def df_method(it, obj, name, args, kw):
         return d
     if name == "to_csv":
         return None
+    if name == "groupby" and getattr(obj, "exact", False):
+        by = kw.get("by", args[0] if args else None)
+        if isinstance(by, str) and by in obj.cols and all(isinstance(x, str) for x in obj.cols[by].v):
+            keys = []
+            for x in obj.cols[by].v:
+                if x not in keys:
+                    keys.append(x)
+            if kw.get("sort", True):
+                keys = sorted(keys)
+            return [(k, df_select(obj, Vec([x == k for x in obj.cols[by].v]))) for k in keys]
     if name == "groupby" and obj.n == 1:
         by = kw.get("by", args[0] if args else None)
         if isinstance(by, str) and by in obj.cols:
@@ -1016,6 +1051,14 @@ def ext_call(it, dotted, args, kw):
         return Opaque(name)
     if name in ("np.isnan", "pd.isnull", "pd.isna", "math.isnan"):
         return lift1(is_nan, args[0])
+    if name in ("np.isfinite", "math.isfinite"):
+        def fin(x):
+            if is_nan(x):
+                return False
+            if isinstance(x, (Term, OrderVal)) or num(x):
+                return not (num(x) and x in (INF, -INF))
+            raise Undecided("isfinite of " + repr(x))
+        return lift1(fin, args[0])
     if name == "np.average":
         x, w = args[0], kw.get("weights", args[1] if len(args) > 1 else None)
         if not isinstance(x, Vec):
